@@ -266,6 +266,23 @@ queued is answered by `end_session`), and the source facts `source_zero_width_co
 `source_credit_taken_before_decoding`, `source_append_only_pushes`, `source_take_rechecks`,
 `source_payload_of_transfer_only`, `source_dispose_shape`, `source_chunk_reader_shape`.
 
+*Resumed, posted and rewound deliveries* (end of the fourth session; all three for C10, the second also for
+C18). `Amqp.Reasm.stepR` adds the `resume` flag: the arm of `on_resuming_transfer` that makes a last frame a
+delivery of its own (both tags known and different; the delivery in progress stays) and the arms that
+complete the delivery in progress; `resume_flag_immaterial` shows by an invariant over the tags in sight that
+on the frames of one delivery the flag changes nothing, `reasm_once_resumed` is `reasm_once` with the flag on
+any frames. `Amqp/TxnRoute.lean` is the listener's transactional session in front of the links: per
+transfer, withheld under which transaction or handed on, and the table `incomplete_posts` (link ↦ transaction
+and delivery-tag of the post under way) as a function; `post_withheld_whole` (every frame of a post, other
+links' frames in between, tag and state repeated or left out in any combination), `post_work_in_order` (the
+transaction's work for that link is those frames in order), `abort_ends_the_post` and
+`after_abort_next_is_plain`, and in `Theorems/C10.lean` the composition with reassembly
+(`committed_post_is_the_post_as_written`). `Amqp/KeepTill.lean` is the rewind a `received` state on a
+continuation transfer asks for: the position counting over windows of three octets and the loop over the
+chunks; `keep_is_take` (for every chunking, exactly the octets before the point), `rewind_then_resend`. Each
+of the three was written by asking what the reassembly model's frames leave out; the second and the third
+turned up defects in the code (§8: 2716544, a1d507f, 298dd8c).
+
 *Driver* (`lean/Driver`) parses one line, runs the model, prints one canonical line. Errors are a
 small enum, maps are printed in wire order, byte strings in hex; nothing that came out of a hash
 map or a clock is compared.
